@@ -257,6 +257,17 @@ impl MetadataClient for LocalMetadataClient {
         source_chunks: &[String],
         target_chunk: &str,
     ) -> Result<()> {
+        // Refuse to drop the sources when the target is unknown (same contract as the
+        // object-store backend): the merged chunk must have been registered first.
+        if source_chunks.iter().any(|path| path == target_chunk)
+            || !self.chunks.contains_key(target_chunk)
+        {
+            return Err(crate::Error::Metadata(format!(
+                "Compaction target chunk not found in catalog: {}",
+                target_chunk
+            )));
+        }
+
         // Determine the new level (max source level + 1)
         let new_level = source_chunks
             .iter()
